@@ -19,11 +19,12 @@ sys.path.insert(0, os.path.dirname(os.path.dirname(os.path.abspath(__file__))))
 from genlib import *
 
 LEAN_MODULES = ["MpirProofs.Props.C02_sbq"]
-THEOREMS = ["Mpir.SbDivQ.sb_divappr_q_contract", "Mpir.SbDivQ.sb_divappr_q_ok", "Mpir.SbDivQ.daFinal_dead"]
+THEOREMS = ["Mpir.SbDivQ.sb_divappr_q_contract", "Mpir.SbDivQ.sb_divappr_q_ok", "Mpir.SbDivQ.daFinal_dead", "Mpir.SbDivQ.sb_div_q_exact"]
 PINS = [("mpn/generic/sb_divappr_q.c", None), ("mpn/generic/sb_div_q.c", None), ("gmp-impl.h", "udiv_qr_3by2"),
         ("gmp-impl.h", "mpir_invert_pi1"), ("mpn/x86_64/longlong_inc.h", "sub_333")]
 TRUSTED = ["hand-written limb-level models of mpn_sb_divappr_q / mpn_sb_div_q in lean/Mpir/Model/SbDivQ.lean (window form of the pointer walk; compared verbatim with the real functions on every run)"]
-ASSUMPTIONS = ["sb_divappr_q: in __divappr_helper called from the truncating loop the memory cell whose value lives in the register `cy` is stale; only np[dn-2..dn] (which do not depend on it) are modelled and compared"]
+ASSUMPTIONS = ["both theorems carry the size hypothesis 2*dn + 2 <= 2^64 (sizes are mp_size_t): the accumulated truncation error (dn+1)*B^(dn-1) must stay below D",
+               "sb_divappr_q: in __divappr_helper called from the truncating loop the memory cell whose value lives in the register `cy` is stale; only np[dn-2..dn] (which do not depend on it) are modelled and compared"]
 RULE = ("sb_divappr_q / sb_div_q: dn in 3..9, 12, 16; qn in 0..2dn+2 (both sides of qn+1 = dn); dividends built backwards from a chosen chain of "
         "quotient limbs and partial remainders to force saturation, q = B-1 steps, add-backs, flag = 0 and the fix-up code at every position")
 
